@@ -14,6 +14,11 @@
 (* in the shape of the code: what the loops evaluate between two sleeps is *)
 (* one atomic step.                                                        *)
 (*                                                                         *)
+(* The loops read seen, the client-side copy of the entity states which    *)
+(* is fed by state notifications; the truth st is the furthest state ever  *)
+(* notified.  Stale notifications are no-ops: seen = st unless             *)
+(* DevStaleApplied.                                                        *)
+(*                                                                         *)
 (* Ghost variables (everHi, everLo, dueHi, dueLo) state the property       *)
 (* independently of the loops: the tick at which the call is due.          *)
 (* Known deviations of the code are boolean constants (FALSE = intended).  *)
@@ -31,15 +36,17 @@ CONSTANTS NN,          \* number of non-final states of the chain
           PastApis,    \* apis for which "in or past a requested state" is what Prompt counts
           DevTaskDefaultNone,   \* D6: Task.wait() normalises "no state" to [None]
           DevNoFinalExit,       \* D7: Task.wait/Pilot.wait loops ignore "final in another state"
-          DevPilotNoneReturn    \* D7: Pilot.wait returns None if already in an awaited final state
+          DevPilotNoneReturn,   \* D7: Pilot.wait returns None if already in an awaited final state
+          DevStaleApplied       \* a stale notification is applied to the client-side object
 
 VARIABLES api, kind, awaited, rform, R, timeout,     \* the call (chosen in Init)
-          tick, st, closing,                          \* environment
+          tick, st, closing,                          \* environment; st: furthest state notified
+          seen,                                       \* client-side state the loops read
           pc, chk, aw,                                \* waiter: control, to_check, uids it settled on
           everHi, everLo, dueHi, dueLo,               \* ghosts
           rtick, rval, rshape, rclosed                \* the return
 
-vars == <<api, kind, awaited, rform, R, timeout, tick, st, closing, pc, chk, aw,
+vars == <<api, kind, awaited, rform, R, timeout, tick, st, closing, seen, pc, chk, aw,
           everHi, everLo, dueHi, dueLo, rtick, rval, rshape, rclosed>>
 params == <<api, kind, awaited, rform, R, timeout>>
 
@@ -48,6 +55,19 @@ E == 1 .. NE
 SatHi(s) == IF api \in PastApis THEN SatPast(NN, R, s) ELSE SatExact(NN, R, s)
 SatLo(s) == SatPast(NN, R, s)
 AllEver(ev) == \A e \in awaited : ev[e]
+
+(* ---- notification layer ------------------------------------------------------ *)
+\* The entities change on the client side through state notifications (manager
+\* _state_sub_cb -> _update_pilot / _update_tasks -> Pilot._update / Task._update)
+\* which arrive with gaps, duplicated, reordered and after a final one.  The
+\* truth st is the furthest state ever notified (a final state is sticky); a
+\* stale notification (an earlier non-final state) is a no-op, so the loops
+\* read seen = st.  With DevStaleApplied the last stale notification of a tick
+\* sticks: seen may be any earlier non-final state.
+Views(f) == IF DevStaleApplied
+            THEN {g \in [E -> Codes(NN)] : \A e \in E :
+                     g[e] = f[e] \/ (e \in awaited /\ ~Final(NN, g[e]) /\ g[e] < Val(NN, f[e]))}
+            ELSE {f}
 
 Init ==
   /\ api \in Apis
@@ -62,6 +82,7 @@ Init ==
   /\ st \in [E -> Codes(NN)]
   /\ \A e \in E \ awaited : st[e] = 0
   /\ closing \in (IF MayClose THEN BOOLEAN ELSE {FALSE})
+  /\ seen \in Views(st)
   /\ tick = 0 /\ pc = "idle" /\ chk = {} /\ aw = {}
   /\ everHi = [e \in E |-> SatHi(st[e])]
   /\ everLo = [e \in E |-> SatLo(st[e])]
@@ -92,64 +113,64 @@ Self == CHOOSE e \in awaited : TRUE
 Call ==
   /\ pc = "idle"
   /\ CASE api \in {"task", "pilot"} ->
-            LET s == st[Self] IN
+            LET s == seen[Self] IN
             /\ IF Final(NN, s)
                THEN IF api = "pilot" /\ DevPilotNoneReturn /\ s \in WantCode
                     THEN ReturnNone(0, closing)
-                    ELSE Return(0, st, closing, <<Self>>)
-               ELSE IF Cont(s) THEN Sleep ELSE Return(0, st, closing, <<Self>>)
+                    ELSE Return(0, seen, closing, <<Self>>)
+               ELSE IF Cont(s) THEN Sleep ELSE Return(0, seen, closing, <<Self>>)
             /\ UNCHANGED <<chk, aw>>
        [] api = "tmgr" ->
             /\ aw' = awaited
-            /\ IF closing THEN Return(0, st, closing, SortedSeq(awaited)) /\ UNCHANGED chk
+            /\ IF closing THEN Return(0, seen, closing, SortedSeq(awaited)) /\ UNCHANGED chk
                           ELSE Sleep /\ chk' = awaited
        [] api = "pmgr" ->
-            LET a == IF kind = "all" THEN {e \in E : ~Final(NN, st[e])} ELSE awaited IN
+            LET a == IF kind = "all" THEN {e \in E : ~Final(NN, seen[e])} ELSE awaited IN
             /\ aw' = a
-            /\ IF a = {} \/ closing THEN Return(0, st, closing, SortedSeq(a)) /\ UNCHANGED chk
-                                    ELSE Sleep /\ chk' = KeepP(st, a)
-  /\ UNCHANGED <<params, tick, st, closing, everHi, everLo, dueHi, dueLo>>
+            /\ IF a = {} \/ closing THEN Return(0, seen, closing, SortedSeq(a)) /\ UNCHANGED chk
+                                    ELSE Sleep /\ chk' = KeepP(seen, a)
+  /\ UNCHANGED <<params, tick, st, closing, seen, everHi, everLo, dueHi, dueLo>>
 
 \* one sleep: the environment moves, then the waiter evaluates up to its next sleep
 EnvNext(ns) == \A e \in E : IF tick < TrajEnd /\ e \in awaited THEN LegalStep(NN, st[e], ns[e])
                                                                ELSE ns[e] = st[e]
 
-Poll(ns, cl) ==
+Poll(ns, sn, cl) ==
   /\ pc = "sleep" /\ tick < MaxTick
-  /\ EnvNext(ns) /\ (closing => cl) /\ (cl => MayClose)
+  /\ EnvNext(ns) /\ sn \in Views(ns) /\ (closing => cl) /\ (cl => MayClose)
   /\ LET t   == tick + 1
          eh  == [e \in E |-> everHi[e] \/ SatHi(ns[e])]
          el  == [e \in E |-> everLo[e] \/ SatLo(ns[e])]
      IN
-     /\ tick' = t /\ st' = ns /\ closing' = cl
+     /\ tick' = t /\ st' = ns /\ seen' = sn /\ closing' = cl
      /\ everHi' = eh /\ everLo' = el
      /\ dueHi' = NextDue(dueHi, AllEver(eh), timeout, t)
      /\ dueLo' = NextDue(dueLo, AllEver(el), timeout, t)
      /\ CASE api \in {"task", "pilot"} ->
-               /\ IF TimedOut(timeout, t) \/ cl \/ ~Cont(ns[Self])
-                  THEN Return(t, ns, cl, <<Self>>) ELSE Sleep
+               /\ IF TimedOut(timeout, t) \/ cl \/ ~Cont(sn[Self])
+                  THEN Return(t, sn, cl, <<Self>>) ELSE Sleep
                /\ UNCHANGED chk
           [] api = "tmgr" ->
-               LET c == KeepT(ns, chk) IN
+               LET c == KeepT(sn, chk) IN
                /\ chk' = c
                /\ IF c = {} \/ cl \/ TimedOut(timeout, t)
-                  THEN Return(t, ns, cl, SortedSeq(aw)) ELSE Sleep
+                  THEN Return(t, sn, cl, SortedSeq(aw)) ELSE Sleep
           [] api = "pmgr" ->
                IF chk = {} \/ cl
-               THEN Return(t, ns, cl, SortedSeq(aw)) /\ UNCHANGED chk
-               ELSE LET c == KeepP(ns, chk) IN
+               THEN Return(t, sn, cl, SortedSeq(aw)) /\ UNCHANGED chk
+               ELSE LET c == KeepP(sn, chk) IN
                     /\ chk' = c
                     /\ IF c # {} /\ TimedOut(timeout, t)
-                       THEN Return(t, ns, cl, SortedSeq(aw)) ELSE Sleep
+                       THEN Return(t, sn, cl, SortedSeq(aw)) ELSE Sleep
   /\ UNCHANGED <<params, aw>>
 
-Next == Call \/ \E ns \in [E -> Codes(NN)], cl \in BOOLEAN : Poll(ns, cl)
+Next == Call \/ \E ns \in [E -> Codes(NN)], cl \in BOOLEAN : \E sn \in Views(ns) : Poll(ns, sn, cl)
 Spec == Init /\ [][Next]_vars
 
 (* ---- properties ------------------------------------------------------------ *)
 TypeOK ==
   /\ pc \in {"idle", "sleep", "ret"} /\ tick \in 0 .. MaxTick
-  /\ st \in [E -> Codes(NN)] /\ chk \subseteq E /\ aw \subseteq E
+  /\ st \in [E -> Codes(NN)] /\ seen \in [E -> Codes(NN)] /\ chk \subseteq E /\ aw \subseteq E
   /\ dueHi \in {NONE} \cup (0 .. MaxTick) /\ dueLo \in {NONE} \cup (0 .. MaxTick)
 
 \* C15.Prompt: the call does not go to sleep again after its due tick, and it
@@ -159,7 +180,7 @@ InvPrompt ==
   /\ pc = "ret"   => PromptOK(dueHi, rtick)
 \* C15.NotEarly
 InvNotEarly == pc = "ret" => NotEarlyOK(dueLo, rtick, rclosed)
-\* C15.Truthful (the state at return is st: nothing moves after the return)
+\* C15.Truthful (the actual state at return is st: nothing moves after the return)
 InvTruthful ==
   pc = "ret" => /\ ShapeOK(kind, rshape)
                 /\ \/ ValuesOK(rval, st, SortedSeq(awaited))
